@@ -913,10 +913,16 @@ func vfGenCfgKnobs(rt *rapid.T, label string) (func(*Config), string) {
 func vfGenSrvKnobs(rt *rapid.T, label string) (func(*Config), string) {
 	reqCert := rapid.IntRange(0, 2).Draw(rt, label+"_request_client_cert") == 0
 	noTickets := rapid.IntRange(0, 3).Draw(rt, label+"_no_tickets") == 0
-	if !reqCert && !noTickets {
+	// the server owns ECH keys: clients without a real ECH configuration (GREASE ECH, or no ECH extension at all) are
+	// served as before, the undecryptable GREASE payload is ignored
+	echKeys := rapid.IntRange(0, 3).Draw(rt, label+"_has_ech_keys") == 0
+	if !reqCert && !noTickets && !echKeys {
 		return nil, ""
 	}
 	desc := "server knobs:"
+	if echKeys {
+		desc += " EncryptedClientHelloKeys"
+	}
 	if reqCert {
 		desc += " RequestClientCert"
 	}
@@ -929,6 +935,10 @@ func vfGenSrvKnobs(rt *rapid.T, label string) (func(*Config), string) {
 		}
 		if noTickets {
 			c.SessionTicketsDisabled = true
+		}
+		if echKeys {
+			_, key := vfMakeECHConfig(77, "public.knobs.test")
+			c.EncryptedClientHelloKeys = []EncryptedClientHelloKey{key}
 		}
 	}, desc
 }
